@@ -31,6 +31,8 @@ def run_case(rs, ctx):
     if "scale" in cfg["lp"]:
         cfg["lp"]["scale"] = False  # running standardisation: excluded by the property
     nf = int(gen.pick(rs, [1, 2, 3]))
+    if gen.is_linear(cfg) and rs.integers(4) == 0:
+        nf = int(gen.pick(rs, [16, 17, 33, 64]))  # wide contexts: far more features than rows in a chunk
     n = int(rs.integers(max(8, gen.min_rows(cfg) + 3), 31))
     data = gen.gen_batch(rs, cfg, cfg["arms"], n, nf, distinct_rows=6)
     # choose chunk boundaries: prefix large enough for the policy, then 0-7 further cuts
@@ -62,7 +64,19 @@ def run_case(rs, ctx):
         for i in range(0, bounds[1]):
             if data["d"][i] == late:
                 data["d"][i] = gen.pick(rs, others)
+    if data["X"] is not None and len(bounds) > 2 and rs.integers(4) == 0:
+        # the rows after the prefix leave the prefix's value range (negative coordinates)
+        for i in range(bounds[1], n):
+            data["X"][i] = [v - 3.0 for v in data["X"][i]]
     chunks = [gen.slice_batch(data, bounds[i], bounds[i + 1]) for i in range(len(bounds) - 1)]
+    if data["X"] is not None and rs.integers(2):
+        # every call may bring its contexts in another container / dtype (same values)
+        for c in chunks:
+            c["x_enc"] = gen.pick_enc(rs, cfg, p=2)
+        if rs.integers(2):
+            chunks[0]["x_enc"] = "narrow"
+        data["x_enc"] = gen.pick_enc(rs, cfg, p=2)
+        ctx.count("mixed_container_histories")
     A, B = gen.build(cfg), gen.build(cfg)
     wit = {"cfg": cfg, "data": data, "chunk_bounds": bounds}
     # binary rewards may legally arrive as a boolean array
